@@ -76,12 +76,12 @@ def run_locked(env, scn, op, locked_rel, no_lock, groups, kind="w", rng="whole",
     for r_ in readonly:
         os.chmod(os.path.join(scn.root, r_), 0o444)
     inv0 = A.inventory(scn.base)
-    cmds = A.derive_cmds(op, groups, inv0, scn.dir_arg())
+    cmds = c05.scn_cmds(scn, op, groups, inv0)        # fake_mount => Move { use_rename: false }
     paths = [os.path.join(scn.root, r) for r in locked_rel]
     lk = Locker([(p, kind, rng) for p in paths])
     try:
         r = A.run_shim(env["fclones"], env["shim"], A.cli_args(op, scn, no_lock), scn.report, scn.base, sim_ficlone=(op == "dedupe"),
-                       drop_caps=drop_caps)
+                       drop_caps=drop_caps, env_extra=scn.env_extra())
     finally:
         lk.close()
     c = c05.Case()
@@ -245,7 +245,8 @@ def run(ctx):
                 "and must be (F_WRLCK, SEEK_SET, 0, 0); API level: the same ranges on a 10-byte and on an EMPTY file. "
                 "one group of n = 2..4 identical files (first retained, n-1 victims; one variant with two victims hard-linked); a helper "
                 "process holds fcntl write locks on every subset of the victims (and, separately, on the retained file) while the real "
-                "binary runs remove / link / link --soft / dedupe (FICLONE simulated by the shim) / move, with and without --no-lock; "
+                "binary runs remove / link / link --soft / dedupe (FICLONE simulated by the shim) / move (same mount: rename) / move to a DIR on "
+                "another mount point (use_rename = false: copy + remove), with and without --no-lock; "
                 "a case = one run; non-trivial = at least one member locked")
     ctx.assumptions = ["advisory fcntl locks as implemented by the kernel (per inode, per process, conflict => EAGAIN/EACCES)",
                        "the lock is a check-then-act probe: `let _ = maybe_lock(..)?` releases it before the operation (stated, not a finding); "
@@ -265,13 +266,18 @@ def run(ctx):
         rp = json.load(open(ctx.replay))
         plan = [(rp["n"], rp["hardlinked_victims"], rp["op"])]
     else:
-        plan = [(n, False, op) for n in (2, 3, 4) for op in A.OPS] + [(3, True, op) for op in A.OPS]
+        # "move_copy" = `move DIR` with DIR registered as ANOTHER MOUNT POINT (hook FCLONES_VERIF_MOUNTS): dedupe_script emits
+        # Move { use_rename: false }, execute goes straight to move_copy — the lock probe must precede that path too
+        ops = A.OPS + ["move_copy"]
+        plan = [(n, False, op) for n in (2, 3, 4) for op in ops] + [(3, True, op) for op in ops]
         if not ctx.quick:
-            plan += [(4, True, op) for op in A.OPS]
+            plan += [(4, True, op) for op in ops]
 
     def do(job):
         idx, (n, hl, op) = job
         scn = gen_scenario(core.SplitMix64(1000 + idx), "l%d" % idx, ctx.scratch, n, hl)
+        scn.fake_mount = (op == "move_copy")
+        op = "move" if op == "move_copy" else op
         os.makedirs(scn.base, exist_ok=True)
         groups = scn.make_report(env["fclones"])
         victims = ["b/v%d" % i for i in range(1, n)]
